@@ -4,7 +4,7 @@
    proofs: Front/{SliceC14,Mux,BarrelC14,Bitfield,Pattern,Struct}Proofs.v.
    A wire value is a bit list, LSB first; bitwidth = length; `None` = the helper raises.
    All statements are for ALL widths, shapes and values. *)
-From Coq Require Import ZArith List Bool Ascii String.
+From Coq Require Import ZArith List Bool Ascii String Permutation.
 From PyRTL Require Import Base.PyZ Front.SliceC14 Front.Mux Front.BarrelC14 Front.Bitfield Front.Pattern
      Front.Struct Front.C14Harness Front.SliceC14Proofs Front.MuxProofs Front.BitfieldProofs
      Front.BarrelC14Proofs Front.PatternProofs Front.StructProofs.
@@ -169,6 +169,43 @@ Theorem C14_bitfield_update_set_spec : forall w ups tr r,
   ForallOrdPairs (fun u1 u2 => forall i, In i (idx_of (length w) u1) -> ~ In i (idx_of (length w) u2)) ups.
 Proof. exact bitfield_update_set_spec. Qed.
 Print Assumptions C14_bitfield_update_set_spec.
+
+(* overlap = non-empty intersection of the addressed bit sets, whatever the dictionary order *)
+Theorem C14_bitfield_update_set_disjoint : forall w ups tr r,
+  bitfield_update_set w ups tr = Some r ->
+  forall u1 u2, In u1 ups -> In u2 ups -> u1 <> u2 ->
+  forall i, In i (idx_of (length w) u1) -> ~ In i (idx_of (length w) u2).
+Proof. exact bitfield_update_set_disjoint. Qed.
+Print Assumptions C14_bitfield_update_set_disjoint.
+
+Theorem C14_bitfield_update_set_overlap_raises : forall w ups tr u1 u2 i,
+  In u1 ups -> In u2 ups -> u1 <> u2 ->
+  In i (idx_of (length w) u1) -> In i (idx_of (length w) u2) ->
+  bitfield_update_set w ups tr = None.
+Proof. exact bitfield_update_set_overlap_raises. Qed.
+Print Assumptions C14_bitfield_update_set_overlap_raises.
+
+(* non-empty, fitting, pairwise disjoint ranges are accepted ... *)
+Theorem C14_bitfield_update_set_ok : forall w ups tr,
+  (forall u, In u ups ->
+     idx_of (length w) u <> [] /\ (length (snd u) <= length (idx_of (length w) u) \/ tr = true)%nat) ->
+  ForallOrdPairs (fun u1 u2 => forall i, In i (idx_of (length w) u1) -> ~ In i (idx_of (length w) u2)) ups ->
+  bitfield_update_set w ups tr <> None.
+Proof. exact bitfield_update_set_ok. Qed.
+Print Assumptions C14_bitfield_update_set_ok.
+
+(* ... so acceptance and the result are both independent of the dictionary order *)
+Theorem C14_bitfield_update_set_order_independent : forall w ups ups' tr,
+  Permutation ups ups' -> NoDup ups ->
+  bitfield_update_set w ups tr <> None -> bitfield_update_set w ups' tr <> None.
+Proof. exact bitfield_update_set_order_independent. Qed.
+Print Assumptions C14_bitfield_update_set_order_independent.
+
+Theorem C14_bitfield_update_set_perm : forall w ups ups' tr r r',
+  Permutation ups ups' ->
+  bitfield_update_set w ups tr = Some r -> bitfield_update_set w ups' tr = Some r' -> r = r'.
+Proof. exact bitfield_update_set_perm. Qed.
+Print Assumptions C14_bitfield_update_set_perm.
 
 (* ================= match_bitpattern ================= *)
 (* ns = the pattern with '_' and whitespace removed (match_bitpattern w pat = match_bits w (strip pat));
@@ -402,6 +439,9 @@ Example C14_example_bitfield :
   option_map to_Z (bitfield_update_set (of_Z 6 63) [((None, Some 1), [false]); ((Some 4, None), [true; false])] false)
     = Some 30 /\
   bitfield_update_set (of_Z 6 63) [((None, Some 2), [false]); ((Some 1, None), [true; false])] false = None /\
+  (* a later range that strictly encloses an earlier one is an overlap too *)
+  bitfield_update_set (of_Z 8 0) [((Some 3, Some 5), [true; true]); ((Some 1, Some 8), of_Z 7 0)] false = None /\
+  bitfield_update_set (of_Z 6 0) [((Some (-4), Some (-2)), [true; true]); ((Some 2, None), of_Z 4 0)] false = None /\
   option_map to_Z (bitfield_update_int (of_Z 4 0) (Some 0) (Some 2) 7 true) = Some 3 /\
   bitfield_update_int (of_Z 4 0) (Some 0) (Some 2) 7 false = None.
 Proof. vm_compute. repeat split; reflexivity. Qed.
